@@ -438,6 +438,14 @@ func c06GenResp(t *rapid.T, l string, redirect bool) c06Resp {
 		default:
 			r.Status = 200
 		}
+		// a 3xx that the client does not follow (300, 304, 305, 306, 309..399) may carry a Location all the same: it is a
+		// completed exchange with a status in [200,400)
+		if rapid.IntRange(0, 3).Draw(t, l+".m3xx") == 0 {
+			r.Status = rapid.SampledFrom([]int{300, 304, 305, 306, 309, 310, 350, 399}).Draw(t, l+".status3xx")
+		}
+		if r.Status >= 300 && r.Status < 400 && r.Status != 301 && r.Status != 302 && r.Status != 303 && r.Status != 307 && r.Status != 308 && rapid.Bool().Draw(t, l+".loc3xx") {
+			r.Location = "http://elsewhere.test/" + rapid.StringMatching(`[a-z0-9]{0,6}`).Draw(t, l+".loc")
+		}
 	}
 	r.Headers = c06Headers(t, l+".h", false)
 	r.Body = c06Bytes(t, l+".b", []int{-1, 0, 1, 2, 10, 100, 511, 512, 513, 4096, 5000, 70000, 300 * 1024})
